@@ -85,7 +85,7 @@ func (c *g7Conn) RemoteAddr() net.Addr {
 	}
 	return &net.TCPAddr{IP: net.IPv4(10, 9, 0, 1), Port: 50001}
 }
-func (c *g7Conn) LocalAddr() net.Addr      { return &net.TCPAddr{IP: net.IPv4(10, 0, 0, 1), Port: 25565} }
+func (c *g7Conn) LocalAddr() net.Addr { return &net.TCPAddr{IP: net.IPv4(10, 0, 0, 1), Port: 25565} }
 func (c *g7Conn) Type() phase.ConnectionType {
 	if c.connType != nil {
 		return c.connType
